@@ -1,6 +1,12 @@
 """C08 — ants: at most `size` handlers run at once and timeouts bound the wait; busy only if the queue was full.
 Same harness and model as C07 (one scenario line serves both); only the oracle differs."""
+import os
+import subprocess
+
+from . import common as C
 from .c07 import AntsSpec, parse_script, parse_obs
+
+STRESS_BOX_S = 60   # real-time limit of the separate stress process
 
 KNOWN_SIG = "rt-bound-exceeded-while-inner-worker-clogged-by-ctx-ignoring-handler"
 
@@ -19,8 +25,40 @@ class C08(AntsSpec):
                    "except when a blocked sender enqueues at the same instant)",
                    "R*T bound: KNOWN FINDING — false when another task's handler ignores cancellation and occupies an inner worker"]
 
+    def stress(self, ctx):
+        """real-scheduler stress (oracle-only): fresh pools, K = N+2 senders released from a spin barrier, handlers count
+        how many run at once. Runs in its OWN harness process (4 Ps, GC off) under a real-time limit; a timeout is counted
+        as unchecked, never as a failure, and cannot disturb the virtual-time scenarios of the main run."""
+        from . import runner
+        binp = runner._BUILT.get((self.harness, self.tags))
+        if not binp or not os.path.exists(binp):
+            return
+        pools = 1500 if ctx.get("tier") == "quick" else 12000
+        d = os.path.join(C.BUILD, "run", self.id + "-stress")
+        C.fresh_dir(d)
+        sf = os.path.join(d, "stress.txt")
+        lines = ["stress %d %d %d" % (n, n + 2, pools) for n in (1, 2, 3)]
+        open(sf, "w").write("\n".join(lines) + "\n")
+        cov = ctx["coverage"]
+        cov["stress"] = {"lines": len(lines), "pools_per_line": pools, "timeout": False}
+        try:
+            subprocess.run([binp, "-seed", str(ctx.get("seed", 1)), "-tier", "quick", "-out", d, "-replay", sf],
+                           env=dict(C.GOENV, GOMAXPROCS="1"), timeout=STRESS_BOX_S, stdout=subprocess.DEVNULL,
+                           stderr=subprocess.DEVNULL)
+        except subprocess.TimeoutExpired:
+            cov["stress"]["timeout"] = True      # ok unchecked stress-timeout
+            return
+        impl = open(os.path.join(d, "impl.txt")).read().split("\n")[:-1] if os.path.exists(os.path.join(d, "impl.txt")) else []
+        cov["stress"]["results"] = impl
+        for sline, il in zip(lines, impl):
+            r = self.oracle(sline, il)
+            if r:
+                ctx["concrete"].append({"line": 0, "script": sline, "impl": il, "model": "ok unchecked oracle-only",
+                                        "signature": r[0], "what": r[1]})
+
     def extra(self, ctx):
         AntsSpec.extra(self, ctx)
+        self.stress(ctx)
         # structural facts behind C08_max_concurrency: handlers are called only from the closure handed to the
         # inner-callback channel, and the package starts goroutines only in NewPool (two per unit of size)
         funcs = (ctx.get("facts") or {}).get("funcs", {})
@@ -41,6 +79,8 @@ class C08(AntsSpec):
         if c:
             return c
         if script.startswith("stress "):
+            if impl.startswith("stress timeout"):
+                return None   # time-boxed by the harness: counted as unchecked, not a failure
             f = dict(x.split("=") for x in impl.split()[1:] if "=" in x)
             if not f:
                 return ("malformed", "unexpected stress output: " + impl[:200])
@@ -66,8 +106,8 @@ class C08(AntsSpec):
                     return ("discard-without-option", "task %d rejected although discardOnBusy=false" % k)
                 if o["len"] != n:
                     # exact tie: a sender that was blocked on the full queue got its slot at this very instant
-                    tie = any(j != k and o2["kind"] == "acc" and o2["ret"] == o["ret"] and sc["tasks"][j]["time"] < o2["ret"]
-                              for j, o2 in enumerate(obs))
+                    # (a blocked / delayed sender, or another goroutine's Send at the same instant — the runtime chooses the order)
+                    tie = any(j != k and o2["kind"] == "acc" and o2["ret"] == o["ret"] for j, o2 in enumerate(obs))
                     if not tie:
                         return ("discard-while-queue-not-full", "task %d rejected as busy at %d with len(taskChan)=%d, cap=%d" % (
                             k, o["ret"], o["len"], n))
